@@ -126,7 +126,7 @@ class Gen(object):
         self.backend = backend or "sim"
         self.yield_every = rng.choice([None, None, None, 1, 1, 2, 7])
         # many webentities: the id counter crosses byte boundaries of its header field
-        self.wide = prop in ("C01", "C02", "C04", "C05", "C07", "C08", "C09", "C10", "C13", "C19", "C20") and rng.random() < ((0.012 if tier == "quick" else 0.02) if prop != "C04" else 0.03)
+        self.wide = prop in ("C01", "C02", "C04", "C05", "C07", "C08", "C09", "C10", "C13", "C19", "C20") and rng.random() < ((0.012 if tier == "quick" else 0.02) if prop not in ("C04", "C09") else 0.03)
         self.large = self.wide and prop in ("C01", "C04", "C05", "C07", "C08", "C13") and rng.random() < (0.25 if prop != "C04" else 0.4)
         self.many_ids = (prop in ("C07", "C08") and rng.random() < (0.015 if tier == "quick" else 0.03)) or (prop == "C12" and rng.random() < (0.02 if tier == "quick" else 0.04)) or (prop == "C11" and rng.random() < 0.05)
         # swarm: in some runs the caller's input streams (add_pages / add_links arguments) fail mid-request
